@@ -713,8 +713,9 @@ def plan_product(rng, st):
     def dask_fn(b, s):
         b2, _ = G.build_bag(seq2, lay2)
         return b.product(b2)
+    multi = G.build_bag(seq2, lay2)[0].npartitions > 1      # every partition of b is then read by several tasks
     return Step("product", "product(other[%d] %s)" % (len(seq2), lay2["style"]), dask_fn,
-                lambda s: Final([(x, y) for x in s.seq for y in seq2], "mset"), [], terminal=True)
+                lambda s: Final([(x, y) for x in s.seq for y in seq2], "mset"), ["other-npartitions>1"] if multi else [], terminal=True)
 
 
 ACCS = {"I": [("add", operator.add, 0, 10), ("mul", operator.mul, 1, 2), ("max", max, -9, 3)],
@@ -1112,7 +1113,7 @@ def _shrink(keeps, parts, budget=160):
 
 ELEMENTWISE = ("map", "starmap", "filter", "remove", "pluck", "flatten", "map_partitions")
 # operation variants that read their input bag from two tasks (zip(b, b.map(f)), b.map(f, b.count()), b.product(b) ...)
-TWICE_FEATS = frozenset(("bag-arg", "bag-kwarg", "item-arg", "item-kwarg", "self", "derived", "three"))
+TWICE_FEATS = frozenset(("bag-arg", "bag-kwarg", "item-arg", "item-kwarg", "self", "derived", "three", "other-npartitions>1"))
 
 
 def _pipe_names(steps):
@@ -1120,7 +1121,8 @@ def _pipe_names(steps):
     reads its input twice by that property (the mechanism), otherwise by name"""
     last = steps[-1]
     names = ["elementwise" if s.name in ELEMENTWISE else s.name for s in steps[:-1]]
-    if len(steps) > 1 and TWICE_FEATS.intersection(last.feats):
+    if TWICE_FEATS.intersection(last.feats) and any(s.name in ("concat", "repartition") for s in steps[:-1]):
+        # producer > key-aliasing step > several consumer tasks: one mechanism whatever the consumer is
         return names + ["input-used-twice"], []
     return names + [last.name], None
 
@@ -1203,6 +1205,15 @@ def _diagnose(ctx, steps, states, bag, parts, layout, sym, sched, detail):
                       "pipeline %s: expected %s got %s" % (detail["pipeline"], detail["expected"][:300], detail["got"][:300]), **detail)
         return
     cur = list(steps)
+    # shortest suffix that still fails when its input is materialised as a fresh bag
+    for j in range(len(steps) - 2, 0, -1):
+        st_j = states[j]
+        pj = st_j.parts
+        if pj is None:
+            pj = _actual_parts(steps[:j], states[:j], bag, st_j) or [list(st_j.seq)]
+        if _psym(steps[j:], st_j, pj, sched, how) == sym:
+            cur, st0, parts = list(steps[j:]), st_j, pj
+            break
     j = 0
     while j < len(cur) - 1:
         cand = cur[:j] + cur[j + 1:]
